@@ -81,8 +81,8 @@ impl<'a> Model<'a> {
                     file: f.rel.clone(),
                     line: *line,
                     name: name.clone(),
-                    scope: if fx.style == 2 { 0 } else { fx.scope },
-                    autouse: fx.style != 2 && fx.autouse,
+                    scope: fx.scope,
+                    autouse: fx.autouse,
                     deps: if fx.style == 2 { vec![] } else { fx.deps.clone() },
                     origin,
                     via_explicit_only: false,
